@@ -368,14 +368,23 @@ func exploreDoc(scen string, d gen.DDoc, k int, st *mc.Stats) {
 }
 
 func Run(r *mc.Run) {
-	r.Rule = "deb822 documents rendered from a model: all single-field shapes (4 first lines x every sequence of 0..3 continuation lines over 8 line shapes), all paragraphs of <=3 fields over 6 representative shapes, all documents of <=3 paragraphs over 8 representative paragraphs; rendering deviations (CRLF, key/value spacing, blank-line runs before/between/after, missing final newline, a comment at every physical line boundary, byte delivery incl. a split at every offset) up to the deviation bound; 7 access paths per execution. Invariant: all strings up to the length bound over 'A : space \\n # . \\r \\t'. Non-trivial = at least one deviation (well-formed) / at least one paragraph returned (invariant); distinct by construction"
+	r.Rule = "deb822 documents rendered from a model: all single-field shapes (11 first lines x every sequence of 0..2 continuation lines over 17 line shapes; thorough: also every sequence of exactly 3, under one deviation), all paragraphs of <=3 fields over 6 representative shapes, all documents of <=3 paragraphs over 8 representative paragraphs; rendering deviations (CRLF, key/value spacing, blank-line runs before/between/after, missing final newline, a comment of five shapes at every physical line boundary, byte delivery incl. a split at every offset, the final bytes together with io.EOF, answers without bytes) up to the deviation bound; 9 access paths per execution incl. decoding into typed members; field names recurring in other letter cases in later paragraphs; all interleavings of the calls of 2-3 readers alive at once. Invariant: all strings up to the length bound over 'A : space \\n # . \\r \\t'. Non-trivial = at least one deviation (well-formed) / at least one paragraph returned (invariant); distinct by construction"
 	r.Assume = []string{"an empty first line contributes no logical line (the convention all typed parsers rely on: 'Files:' followed by indented lines)",
 		"whitespace-only lines are not blank lines (not part of the statement's well-formed documents)"}
 
 	// base documents
-	var single []gen.DDoc
-	for _, f := range gen.D822FieldShapes("A", r.Pick(2, 3)) {
+	// quick: every shape with <= 2 continuation lines under 1 deviation; thorough: the same under 2 deviations, and
+	// every shape with exactly 3 continuation lines under 1 deviation (scenario single-field-shapes-3)
+	var single, single3 []gen.DDoc
+	for _, f := range gen.D822FieldShapes("A", 2) {
 		single = append(single, gen.DDoc{gen.DPara{f}})
+	}
+	if !r.Quick() {
+		for _, f := range gen.D822FieldShapes("A", 3) {
+			if len(f.Cont) == 3 {
+				single3 = append(single3, gen.DDoc{gen.DPara{f}})
+			}
+		}
 	}
 	for _, f := range gen.D822AuditFields() { // alphabet audit
 		single = append(single, gen.DDoc{gen.DPara{f}}, gen.DDoc{gen.DPara{{Name: "B-c", First: "w"}, f}, gen.DPara{f}})
@@ -440,6 +449,9 @@ func Run(r *mc.Run) {
 		})
 	}
 	run("single-field-shapes", single, k)
+	if len(single3) > 0 {
+		run("single-field-shapes-3", single3, 1)
+	}
 	run("multi-field-paragraphs", multiField, k)
 	run("multi-paragraph-documents", multiPara, k)
 	// a second deviation on a thinner base set in quick (every 9th document), so interactions of two deviations are in the quick tier too
